@@ -79,6 +79,8 @@ pub struct Net {
     pub link_latency: BTreeMap<(u32, u32), (u64, u64)>,
     /// unordered pairs currently partitioned
     pub partitions: Vec<(u32, u32)>,
+    /// directed holds (from, to): bytes written by `from` towards `to` stay queued (FIFO kept) until released
+    pub holds: Vec<(u32, u32)>,
     pub line_log: Option<Vec<LineRecord>>,
     pub line_seq: u64,
     /// number of node-to-node lines ever written (cheap activity counter)
@@ -99,6 +101,7 @@ impl Net {
             latency: (0, 0),
             link_latency: BTreeMap::new(),
             partitions: Vec::new(),
+            holds: Vec::new(),
             line_log: None,
             line_seq: 0,
             inter_node_lines: 0,
@@ -110,7 +113,7 @@ impl Net {
 
     pub fn partitioned(&self, a: Option<u32>, b: Option<u32>) -> bool {
         match (a, b) {
-            (Some(a), Some(b)) => self.partitions.iter().any(|&(x, y)| (x == a && y == b) || (x == b && y == a)),
+            (Some(a), Some(b)) => self.partitions.iter().any(|&(x, y)| (x == a && y == b) || (x == b && y == a)) || self.holds.iter().any(|&(x, y)| x == a && y == b),
             _ => false,
         }
     }
